@@ -37,7 +37,7 @@ package proxy
 //@   assert at call Del#1@1a63ac6f.1: callarg0 == proxyReq.Out.Header && proxyReq.Out.URL == *targetURL
 //@   assert at call Del#2@0a79ddb2.1: callarg0 == proxyReq.Out.Header
 //@   assert at call Del#3@6ce5a8e5.1: callarg0 == proxyReq.Out.Header
-//@   assert at call Set#1: callarg0 == proxyReq.Out.Header && callarg1 == "X-Forwarded-For" && hasSuffix(callarg2, peerIP((*r).req.RemoteAddr))
-//@   assert at call Set#4: callarg0 == proxyReq.Out.Header && callarg1 == "Forwarded"
-//@   assert at call Del#4: callarg0 == proxyReq.Out.Header && mapnext.n > old(mapnext.n) && iface(callarg1) == mapnext.arg0[mapnext.n - 1]
-//@   assert at call Add#1: callarg0 == proxyReq.Out.Header && iface(callarg1) == mapnext.arg0[mapnext.n - 1]
+//@   assert at call Set#1@6eebc2d8.1: callarg0 == proxyReq.Out.Header && callarg1 == "X-Forwarded-For" && hasSuffix(callarg2, peerIP((*r).req.RemoteAddr))
+//@   assert at call Set#4@eef33a36.1: callarg0 == proxyReq.Out.Header && callarg1 == "Forwarded"
+//@   assert at call Del#4@a61aceeb.1: callarg0 == proxyReq.Out.Header && mapnext.n > old(mapnext.n) && iface(callarg1) == mapnext.arg0[mapnext.n - 1]
+//@   assert at call Add#1@0971b442.1: callarg0 == proxyReq.Out.Header && iface(callarg1) == mapnext.arg0[mapnext.n - 1]
